@@ -24,7 +24,7 @@ def per_property():
             if d['id'] == pid:
                 title = d['title']
         out.append('### %s — %s\n' % (pid, title))
-        out.append('*What is proved.* ' + c['text'] + '\n')
+        out.append('*What is proved.* ' + re.sub(r'\s*\d+ seeded mutants[^.]*\.', '', c['text']) + '\n')
         out.append('*Scope and limits.* ' + c['level_note'] + '\n')
         fns = [f['name'] for f in spec.get('functions', [])]
         if spec.get('closure'):
